@@ -300,3 +300,32 @@ Theorem C01_namespace_law_satisfiable :
   ns_data ns_example = [([], mkNs NS_PUBLIC F_SYSTEM); (nsb "dev", mkNs (nsb "Dev 2") F_USER)] /\
   ns_data (ns_reload ns_example) = ns_data ns_example.
 Proof. exact ns_example_in_scope. Qed.
+
+(** * Round 3: C01 for the NAMESPACE component without component, framing or codec premises
+    (SM/ConcreteNsNode.v: the node of SM/Replay.v with the literal NamespaceActor model for KNamespace).
+    For every history of namespace requests in scope ([ns_mok]: non-empty ids), every compaction point k and
+    every leftover of an interrupted attempt, the node restarted from the snapshot FILE BYTES + log serves
+    the same namespaces (id -> name, flag) and the same already_sync flag as the node that ran the history.
+    Remaining hypotheses, at the compaction point only ([nn_ok]): InitFromOldValue not yet applied and the
+    marker id not a namespace (the recorded finding otherwise), byte-string ids / names, records < 2^64. *)
+From RN Require Import SM.ConcreteNsNode.
+
+Theorem C01_restart_reproduces_namespace :
+  forall (hist : list (entry nsreq)) (k : nat) (leftover hdr : list N),
+    (k <= length hist)%nat ->
+    Forall (entry_ok nsreq nn_mok) hist ->
+    (forall c, nn_ok c (run nsstate nsreq nn_apply (firstn k hist) (init_node nsstate nn_init) c)) ->
+    rec_ok hdr -> (length (frame hdr) <= 1024)%nat ->
+    exists nd,
+      restart nsstate nsreq nn_apply nn_snap nn_load nn_init enc_item dec_item_frame
+              write_truncate leftover hdr hist k = Ok nd /\
+      forall c, nn_eq c (nd c) (run nsstate nsreq nn_apply hist (init_node nsstate nn_init) c).
+Proof. exact restart_reproduces_namespace. Qed.
+
+Theorem C01_namespace_node_satisfiable :
+  Forall (entry_ok nsreq nn_mok) nn_hist /\
+  (forall c, nn_ok c (run nsstate nsreq nn_apply (firstn 4 nn_hist) (init_node nsstate nn_init) c)) /\
+  rec_ok nn_hdr /\ (length (frame nn_hdr) <= 1024)%nat /\
+  ns_data (run nsstate nsreq nn_apply nn_hist (init_node nsstate nn_init) KNamespace) =
+    [([], mkNs NS_PUBLIC F_SYSTEM); (nsb "dev", mkNs (nsb "Dev 2") F_USER); (nsb "qa", mkNs (nsb "QA") F_USER)].
+Proof. exact nn_satisfiable. Qed.
